@@ -37,6 +37,7 @@ class Collab(object):
 # name -> (listed exception names, variants)
 def ambient_state():
     """What user code may reasonably take for granted about the interpreter around a validation."""
+    import sys
     import decimal
     import locale
     import os
@@ -51,7 +52,10 @@ def ambient_state():
             # process-wide registries of the standard library that URL-handling code is tempted to "fix"
             tuple(up.uses_relative), tuple(up.uses_netloc), tuple(up.uses_params),
             getattr(ur, "_opener", None) is None, socket.getdefaulttimeout(),
-            logging.getLogger().level, len(logging.getLogger().handlers))
+            logging.getLogger().level, len(logging.getLogger().handlers),
+            # interpreter-wide settings (NOT the recursion limit: the stack-exhaustion fault changes it on purpose)
+            getattr(sys, "get_int_max_str_digits", int)(),
+            sys.flags.dev_mode, sys.getdefaultencoding(), sys.getfilesystemencoding())
 
 
 FORMATS = {
